@@ -140,6 +140,11 @@ func refKeyRules(n *rc.Node) error {
 			return fmt.Errorf("alg %d does not match the curve's algorithm %d", ai, algWant)
 		}
 	}
+	// an algorithm given as anything but an integer identifier (text, bstr, ...) matches no curve: none
+	// of the curves' algorithms has a textual identifier
+	if a := n.Lookup(3); a != nil && !a.IsInt() {
+		return fmt.Errorf("alg is present but is not an integer algorithm identifier, so it cannot match curve %d", crv)
+	}
 	// the same clause read from the algorithm's side: an algorithm that is tied to one curve
 	// (ES256 / ES384 / ES512 as the library binds them, EdDSA to the Edwards curves) matches no other
 	if a := n.Lookup(3); a != nil && a.IsInt() {
@@ -316,6 +321,35 @@ func checkC15(c c15Case) error {
 		if err := vf.Verify(msg, []byte("not a signature")); err == nil {
 			return finding("verifier-accepts-garbage", "verifier from key accepts garbage")
 		}
+	}
+	// the restrictions follow the key as it is now, not as it was at an earlier call: the key object
+	// that just yielded a verifier / signer loses its public point / private scalar in place
+	if verr == nil || serr == nil {
+		saved := map[any]any{}
+		for kk, vv := range k.Params {
+			saved[kk] = vv
+		}
+		if verr == nil {
+			delete(k.Params, cose.KeyLabelEC2X) // (-2 is x for OKP keys as well)
+			if _, err := k.Verifier(); err == nil {
+				return finding("verifier-without-public-point/after-in-place-edit", "Verifier() still succeeds after x was removed from the key object that yielded a verifier before\n%x", []byte(c.Wire))
+			}
+			k.Params[cose.KeyLabelEC2X] = saved[cose.KeyLabelEC2X]
+			ops := k.Ops
+			k.Ops = []cose.KeyOp{cose.KeyOpSign}
+			if _, err := k.Verifier(); err == nil {
+				return finding("verifier-against-key-ops/after-in-place-edit", "Verifier() still succeeds after key_ops of the same key object was set to [sign]\n%x", []byte(c.Wire))
+			}
+			k.Ops = ops
+		}
+		if serr == nil {
+			delete(k.Params, cose.KeyLabelEC2D) // (-4 is d for OKP keys as well)
+			if _, err := k.Signer(); err == nil {
+				return finding("signer-without-private-material/after-in-place-edit", "Signer() still succeeds after d was removed from the key object that yielded a signer before\n%x", []byte(c.Wire))
+			}
+			k.Params[cose.KeyLabelEC2D] = saved[cose.KeyLabelEC2D]
+		}
+		stats.Class("restrictions-rechecked-after-in-place-edit")
 	}
 	stats.NTBytes(b1)
 	if len(c.Wire) < 120 {
